@@ -13,7 +13,7 @@ import itertools
 from collections import namedtuple
 from typing import Any, Callable, Dict, List, Optional, Sequence, Tuple
 
-from .absint import EvalRaise, EvalReturn, Evaluator, Opaque, Unknown
+from .absint import EvalRaise, EvalReturn, Evaluator, LocalFunc, Opaque, Unknown
 from .program import ClassInfo, FuncInfo, Unit, norm
 
 SAFE_METHODS = {
@@ -111,12 +111,42 @@ class Closure:
         self.defaults = dict(defaults or {})  # evaluated when the function was defined (early binding)
 
 
+class ExitStackStub:
+    """contextlib.ExitStack: callbacks run last-in-first-out when the block is left, also by an exception."""
+
+    _absint_context = True
+
+    def __init__(self, it, ev):
+        self._it, self._ev, self._cbs = it, ev, []
+
+    def _absint_enter(self):
+        return self
+
+    def callback(self, fn, *args, **kwargs):
+        self._cbs.append((fn, args, kwargs))
+        return fn
+
+    def pop_all(self):
+        new = ExitStackStub(self._it, self._ev)
+        new._cbs, self._cbs = self._cbs, []
+        return new
+
+    def close(self):
+        self._absint_exit()
+
+    def _absint_exit(self):
+        while self._cbs:
+            fn, args, kwargs = self._cbs.pop()
+            self._it.call_value(fn, list(args), dict(kwargs), self._ev, None)
+
+
 class Interp:
     def __init__(self, prog, native: Tuple[type, ...], follow: Sequence[str] = (), stubs: Optional[Dict[str, Callable]] = None, globals_: Optional[Dict[str, Any]] = None, max_depth: int = 8):
         self.prog = prog
-        self.native = tuple(native)
+        self.native = tuple(native) + (ExitStackStub,)
         self.follow = set(follow)
         self.stubs = dict(stubs or {})
+        self.stubs.setdefault("contextlib.ExitStack", lambda it_, ev, c, a, k: ExitStackStub(it_, ev))
         self.globals = dict(globals_ or {})
         self.depth = 0
         self.max_depth = max_depth
@@ -223,6 +253,10 @@ class Interp:
             if target.fn.qualname in self.stubs:
                 return self.stubs[target.fn.qualname](self, ev, node, list(args), dict(kwargs))
             return self.call(target.fn, args, kwargs)
+        if isinstance(target, LocalFunc) and ev is not None:
+            return ev.apply_local(target, list(args), dict(kwargs))
+        if isinstance(target, self.native) and callable(target):
+            return self._native_call(target, list(args), dict(kwargs), node)
         raise Unknown("call of a value that is not a function of the package")
 
     def call(self, fn: FuncInfo, args: Sequence[Any] = (), kwargs: Optional[Dict[str, Any]] = None, selfobj=None, outer_env: Optional[Dict[str, Any]] = None, defaults: Optional[Dict[str, Any]] = None):
@@ -353,6 +387,9 @@ class Interp:
                     nt = namedtuple(sym.name, fields)  # type: ignore[misc]
                     args, kwargs = self.args_of(ev, c)
                     return nt(*args, **kwargs)
+                if isinstance(sym, str) and sym in self.stubs:
+                    args, kwargs = self.args_of(ev, c)
+                    return self.stubs[sym](self, ev, c, args, kwargs)
                 if isinstance(sym, str) and sym in EXTERNAL:
                     args, kwargs = self.args_of(ev, c)
                     return EXTERNAL[sym](*args, **kwargs)
